@@ -195,6 +195,9 @@ Definition strip3 (r : bytes) : option bytes :=
                end
   end.
 
+(* linear-time reverse (List.rev is quadratic); [frev l = rev l], see frev_rev *)
+Definition frev (l : bytes) : bytes := rev_append l [].
+
 Inductive dec_res :=
 | RFail
 | RUnsafe (why : nat)
@@ -223,7 +226,7 @@ Definition decode (strict_align : bool) (paths : list bytes) (is_deps : bool) (s
          end
   else
     (* int path_size = size - 4; the last four bytes are the checksum *)
-    match rev buf with
+    match frev buf with
     | c3 :: c2 :: c1 :: c0 :: rp =>
         match rp with
         | [] => RFail                         (* path_size = 0 *)
@@ -231,7 +234,7 @@ Definition decode (strict_align : bool) (paths : list bytes) (is_deps : bool) (s
             match strip3 rp with
             | None => RUnsafe 5
             | Some rp' =>
-                let path := rev rp' in        (* StringPiece(buf, path_size); GetNode *)
+                let path := frev rp' in        (* StringPiece(buf, path_size); GetNode *)
                 if strict_align && negb (size mod 4 =? 0) then RUnsafe 6
                 else
                   let checksum := c0 + 256 * c1 + 65536 * c2 + 16777216 * c3 in
